@@ -216,6 +216,13 @@ func genGuards() {
 			LenVers: map[string]string{"value": "vlen"},
 			Params:  []string{"slen", "vlen0", "vlen1", "hasPad:Bool"},
 			Map:     map[string]string{"spec.Pad!=nil": "hasPad", "spec.Length": "slen"}},
+		guardSite{Name: "composite_Pack", OnlyRets: true, Args: map[string][]int{"f.spec.Pref.EncodeLength": {0, 1}}, Sig: []string{"f"}, File: "field/composite.go", Recv: "Composite", Func: "Pack",
+			DefName: map[string]string{"f.pack": "packed"},
+			Params:  []string{"slen", "plen"}, Map: map[string]string{"f.spec.Length": "slen", "len(packed)": "plen"}},
+		guardSite{Name: "composite_packByTag", Args: map[string][]int{"f.spec.Tag.Pad.Pad": {1}}, Sig: []string{"f"}, File: "field/composite.go", Recv: "Composite", Func: "packByTag",
+			Params: []string{"tagLen", "found:Bool", "isSet:Bool", "hasTagEnc:Bool", "hasTagPad:Bool"},
+			Map: map[string]string{"ok": "found", "set": "isSet", "f.spec.Tag.Length": "tagLen", "f.spec.Tag!=nil&&f.spec.Tag.Enc!=nil": "hasTagEnc",
+				"f.spec.Tag.Pad!=nil": "hasTagPad"}},
 		// the running offsets of the element loops: every assignment, and every place the input is cut
 		guardSite{Name: "message_unpack", OnlyRets: true, Slices: true, Updates: []string{"off"}, FirstInt: "off", Sig: []string{"m", "src"}, File: "message.go", Recv: "Message", Func: "unpack",
 			DefBySel: map[string]string{"Unpack": "read"},
